@@ -121,6 +121,36 @@ class SCache(Sym):
     def sym_contains(self, ex, k):
         return SBool(self.dom[k.e])
 
+    def sym_getattr(self, ex, name):
+        if name == "setdefault":
+            def setdefault(k, default=None):
+                if not isinstance(k, SId):
+                    raise Unsupported("cache key")
+                if ex.decide(self.dom[k.e], "cache-hit"):
+                    return SSP(self.val[k.e])
+                self.sym_setitem(ex, k, default)          # a miss INSERTS the default
+                return default
+            return NativeStub(setdefault, "dict.setdefault")
+        if name == "get":
+            def get(k, default=None):
+                if not isinstance(k, SId):
+                    raise Unsupported("cache key")
+                return SSP(self.val[k.e]) if ex.decide(self.dom[k.e], "cache-hit") else default
+            return NativeStub(get, "dict.get")
+        if name == "pop":
+            def pop(k, *default):
+                if not isinstance(k, SId):
+                    raise Unsupported("cache key")
+                if ex.decide(self.dom[k.e], "cache-hit"):
+                    v = SSP(self.val[k.e])
+                    self.dom = z3.Store(self.dom, k.e, False)
+                    return v
+                if default:
+                    return default[0]
+                raise RaiseSignal(KeyError(k))
+            return NativeStub(pop, "dict.pop")
+        raise Unsupported(f"_sp_cache.{name}")
+
     def sym_truth(self, ex):
         x = z3.Const("ne_x", Id)
         return z3.Exists([x], self.dom[x])
@@ -517,6 +547,10 @@ class SDoc(Sym):
 
     def sym_truth(self, ex):
         raise Unsupported("truthiness of a document handle")
+
+    def sym_type(self, ex):
+        # type(document): the dependency class; calling it opens another handle (write_concern is False unless asked for)
+        return NativeStub(lambda *a, **k: SDoc(k.get("filename", a[0] if a else None), k.get("write_concern", False)), "BufferedJSONAttrDict")
 
     def sym_setattr(self, ex, name, v):
         if name == "filename":
